@@ -44,6 +44,10 @@ PROP = dict(
              timeout=(900, 3600)),
         dict(name="law-purego", pkg="c02", run="^TestC02_Law$", shards=G1 + G2_FAST + G2_E4, checks=(200, 3000), tags="purego",
              timeout=(900, 3600)),
+        dict(name="edlaw-noadx", pkg="c02", run="^TestC02_EdLaw$", shards=EDWARDS, checks=(300, 5000), env={"GODEBUG": "cpu.adx=off"},
+             timeout=(900, 3600)),
+        dict(name="edlaw-purego", pkg="c02", run="^TestC02_EdLaw$", shards=EDWARDS, checks=(300, 5000), tags="purego",
+             timeout=(900, 3600)),
         dict(name="pred", pkg="c02", run="^TestC02_Pred$", shards=G1, checks=(1000, 20000), timeout=(900, 3600)),
         dict(name="pred2", pkg="c02", run="^TestC02_Pred$", shards=G2_FAST, checks=(600, 12000), timeout=(900, 3600)),
         dict(name="pred4", pkg="c02", run="^TestC02_Pred$", shards=G2_E4, checks=(300, 4000), timeout=(900, 3600), seeds=(2, 4)),
